@@ -197,6 +197,9 @@ class Session:
             still = self.impl.socks[c]._paused
             cl = clocks if (with_pending and c == with_pending[0]) or (not with_pending and c == paused_before[0]) else []
             if still and not mine:
+                t0, req = self.park_info.get(c, (None, None))
+                if t0 is not None and req and self.impl.loop.vtime - t0 > req + 1e-6:
+                    Mn_add(self, 'C14', 'timeout_not_late', 'still waiting %.3f s after a blocking pop with a %.3f s timeout was sent (the event loop is idle)' % (self.impl.loop.vtime - t0, req))
                 line = self.model.ask('awake %d -' % c)
                 om, crash_m, fault = Mo.parse_out(line)
                 if om or fault:
@@ -319,6 +322,11 @@ class Session:
         for rs in (getattr(self, 'last_out', None) or {}).values():
             for r in rs:
                 walk(r)
+        ul = getattr(self.impl.clock, 'unlocked', None)
+        if ul:
+            what = ul[0]
+            del ul[:]
+            raise Divergence(self.index, ev, 'locking', {'outside the server lock': what}, 'clock readings and deliveries to other connections happen inside the critical section')
         al = getattr(self.impl.clock, 'aliased_results', None)
         if al:
             where = al[0]
